@@ -384,6 +384,11 @@ def fam_core(rng, tier):
     for seq in (['manual_first'], ['manual_first', 'manual1']):
         out.append(dict(id='core/reset/B3/queue/%s/immediate' % '+'.join(seq), world=world('B3', 'queue'),
                         steps=[{"a": "reset_script", "seq": seq, "cmd": "reset", "dst": "development/4.3"}], core=True))
+    # C15: the destination moved, the integration branches were not updated yet, manual work, reset
+    for mode in ('queue', 'noqueue'):
+        for seq in (['dst_move_noeval', 'manual1'], ['dst_move_noeval', 'manual_first', 'push']):
+            out.append(dict(id='core/reset/B3/%s/%s' % (mode, '+'.join(seq)), world=world('B3', mode),
+                            steps=[{"a": "reset_script", "seq": seq, "cmd": "reset", "dst": "development/4.3"}], core=True))
     # C12: two dependencies of mixed status
     out.append(dict(id='hold/B3/queue/after_two/core', world=world('B3', 'queue'),
                     steps=[{"a": "hold_script", "hold": "after_two", "pos": "at_open", "dst": "development/4.3",
